@@ -3,73 +3,14 @@ C06 — "Find-references returns exactly the occurrences of the same variable".
 
 Find-references = { o' | traversal-binding(o') = position-based-definition(query) }.  The
 position-based half is C05's subject (Props/C05).  Here: LuaHelper's traversal-time binder
-(`Bind.bindTraversal`, the insertion order of passes 1–4) IS Lua's binder (`Bind.bindChunk`, S-bind)
-on every program in which no `local` statement has more than one initialiser expression — for all
-programs, all nesting depths, by mutual structural recursion over the AST.  Outside that class
-(`local a, b = e1, e2`) the two differ exactly as finding C06-K2 says (`K2_witness`).
+(`Bind.bindTraversal`, the insertion order of passes 1–4) IS Lua's binder (`Bind.bindChunk`, S-bind) —
+for all programs, all nesting depths, by mutual structural recursion over the AST.  Before the repair
+of cgLocalVarDeclStat this held only for programs without a multi-initialiser `local`
+(`interleaved_local_differs` states the former finding C06-K2).
 -/
 import LuaHelper.Spec.Bind
 namespace LuaHelper.C06
 open LuaHelper.Lex LuaHelper.Ast LuaHelper.Bind
-
-mutual
-/-- no `local` statement with two or more initialiser expressions anywhere inside -/
-def okExp : Exp → Bool
-  | .unop _ e _ => okExp e
-  | .binop _ a b _ => okExp a && okExp b
-  | .table ks vs _ => okExps ks && okExps vs
-  | .func f => okFunc f
-  | .parens e _ => okExp e
-  | .index p k _ => okExp p && okExp k
-  | .call p _ args _ => okExp p && okExps args
-  | _ => true
-def okExps : List Exp → Bool
-  | [] => true
-  | e :: r => okExp e && okExps r
-def okFunc : FuncBody → Bool
-  | .mk _ _ _ _ _ body _ => okBlock body
-def okBlock : Block → Bool
-  | .mk stats ret _ => okStats stats && (match ret with | some es => okExps es | none => true)
-def okStats : List Stat → Bool
-  | [] => true
-  | s :: r => okStat s && okStats r
-def okBlocks : List Block → Bool
-  | [] => true
-  | b :: r => okBlock b && okBlocks r
-def okStat : Stat → Bool
-  | .do_ b _ => okBlock b
-  | .while_ c b _ => okExp c && okBlock b
-  | .repeat_ b c _ => okBlock b && okExp c
-  | .if_ cs bs _ _ => okExps cs && okBlocks bs
-  | .fornum _ _ i lim st b _ => okExp i && okExp lim && okExp st && okBlock b
-  | .forin _ es b _ => okExps es && okBlock b
-  | .assign vars exps _ => okExps vars && okExps exps
-  | .local_ _ exps _ => decide (exps.length ≤ 1) && okExps exps
-  | .localfn _ _ f _ => okFunc f
-  | .callstat e => okExp e
-  | _ => true
-end
-
-/-- with at most one initialiser the traversal order of a `local` statement is Lua's -/
-theorem localTr_single (sl : Loc) (env : Env) (names : List (Bytes × Loc × Nat)) (exps : List Exp)
-    (hlen : exps.length ≤ 1) (hrec : bExps true env exps = bExps false env exps) :
-    bLocalTr true sl env names exps =
-      (bExps false env exps ++ localDecls sl names exps, pushNames env names) := by
-  have hnone : ∀ (ns : List (Bytes × Loc × Nat)),
-      localDecls sl ns [] = ns.map (fun (n, l, _) => declOcc n l sl) := by
-    intro ns
-    induction ns with
-    | nil => rfl
-    | cons a r ih => obtain ⟨n, l, c⟩ := a; simp [localDecls, ih]
-  match exps, names with
-  | [], ns => simp [bLocalTr, bExps, hnone]
-  | [e], [] =>
-    simp only [bExps, List.append_nil] at hrec
-    simp [bLocalTr, bExps, pushNames, hrec, localDecls]
-  | [e], (n, l, k) :: ns =>
-    simp only [bExps, List.append_nil] at hrec
-    simp [bLocalTr, bExps, pushNames, hrec, localDecls, hnone]
-  | _ :: _ :: _, _ => simp at hlen
 
 /-- assignment targets depend on the variant only through their sub-expressions -/
 theorem targets_congr (env : Env) (exps : List Exp) : (i : Nat) → (vs : List Exp) →
@@ -82,98 +23,79 @@ theorem targets_congr (env : Env) (exps : List Exp) : (i : Nat) → (vs : List E
     cases v <;> simp_all [bTargets]
 
 mutual
-theorem tExp : (e : Exp) → (env : Env) → okExp e = true → bExp true env e = bExp false env e
-  | .noKey, env, _ => by simp [bExp]
-  | .nil _, env, _ => by simp [bExp]
-  | .tru _, env, _ => by simp [bExp]
-  | .fls _, env, _ => by simp [bExp]
-  | .vararg _, env, _ => by simp [bExp]
-  | .int _ _, env, _ => by simp [bExp]
-  | .flt _ _, env, _ => by simp [bExp]
-  | .str _ _, env, _ => by simp [bExp]
-  | .name _ _, env, _ => by simp [bExp]
-  | .bad _, env, _ => by simp [bExp]
-  | .unop _ e _, env, h => by simp only [okExp] at h; simp [bExp, tExp e env h]
-  | .binop _ a b _, env, h => by
-    simp only [okExp, Bool.and_eq_true] at h; simp [bExp, tExp a env h.1, tExp b env h.2]
-  | .table ks vs _, env, h => by
-    simp only [okExp, Bool.and_eq_true] at h; simp [bExp, tExps ks env h.1, tExps vs env h.2]
-  | .func f, env, h => by simp only [okExp] at h; simp [bExp, tFunc f env h]
-  | .parens e _, env, h => by simp only [okExp] at h; simp [bExp, tExp e env h]
-  | .index p k _, env, h => by
-    simp only [okExp, Bool.and_eq_true] at h; simp [bExp, tExp p env h.1, tExp k env h.2]
-  | .call p _ args _, env, h => by
-    simp only [okExp, Bool.and_eq_true] at h; simp [bExp, tExp p env h.1, tExps args env h.2]
+theorem tExp : (e : Exp) → (env : Env) → bExp true env e = bExp false env e
+  | .noKey, env => by simp [bExp]
+  | .nil _, env => by simp [bExp]
+  | .tru _, env => by simp [bExp]
+  | .fls _, env => by simp [bExp]
+  | .vararg _, env => by simp [bExp]
+  | .int _ _, env => by simp [bExp]
+  | .flt _ _, env => by simp [bExp]
+  | .str _ _, env => by simp [bExp]
+  | .name _ _, env => by simp [bExp]
+  | .bad _, env => by simp [bExp]
+  | .unop _ e _, env => by simp [bExp, tExp e env]
+  | .binop _ a b _, env => by simp [bExp, tExp a env, tExp b env]
+  | .table ks vs _, env => by simp [bExp, tExps ks env, tExps vs env]
+  | .func f, env => by simp [bExp, tFunc f env]
+  | .parens e _, env => by simp [bExp, tExp e env]
+  | .index p k _, env => by simp [bExp, tExp p env, tExp k env]
+  | .call p _ args _, env => by simp [bExp, tExp p env, tExps args env]
 termination_by x => sizeOf x
-theorem tExps : (es : List Exp) → (env : Env) → okExps es = true → bExps true env es = bExps false env es
-  | [], env, _ => by simp [bExps]
-  | e :: r, env, h => by
-    simp only [okExps, Bool.and_eq_true] at h; simp [bExps, tExp e env h.1, tExps r env h.2]
+theorem tExps : (es : List Exp) → (env : Env) → bExps true env es = bExps false env es
+  | [], env => by simp [bExps]
+  | e :: r, env => by simp [bExps, tExp e env, tExps r env]
 termination_by x => sizeOf x
-theorem tFunc : (f : FuncBody) → (env : Env) → okFunc f = true → bFunc true env f = bFunc false env f
-  | .mk _ _ ps _ _ body _, env, h => by
-    simp only [okFunc] at h; simp [bFunc, tBlock body (pushParams env ps) h]
+theorem tFunc : (f : FuncBody) → (env : Env) → bFunc true env f = bFunc false env f
+  | .mk _ _ ps _ _ body _, env => by simp [bFunc, tBlock body (pushParams env ps)]
 termination_by x => sizeOf x
-theorem tBlock : (b : Block) → (env : Env) → okBlock b = true → bBlock true env b = bBlock false env b
-  | .mk stats none _, env, h => by
-    simp only [okBlock, Bool.and_eq_true] at h
-    simp only [bBlock, tStats stats env h.1]
-  | .mk stats (some es) _, env, h => by
-    simp only [okBlock, Bool.and_eq_true] at h
-    have h1 := tStats stats env h.1
-    have h2 := tExps es (bStats false env stats).2 h.2
+theorem tBlock : (b : Block) → (env : Env) → bBlock true env b = bBlock false env b
+  | .mk stats none _, env => by
+    simp only [bBlock, tStats stats env]
+  | .mk stats (some es) _, env => by
+    have h1 := tStats stats env
+    have h2 := tExps es (bStats false env stats).2
     simp only [bBlock, h1, h2]
 termination_by x => sizeOf x
-theorem tStats : (ss : List Stat) → (env : Env) → okStats ss = true → bStats true env ss = bStats false env ss
-  | [], env, _ => by simp [bStats]
-  | s :: r, env, h => by
-    simp only [okStats, Bool.and_eq_true] at h
-    simp only [bStats, tStat s env h.1]
-    rw [tStats r _ h.2]
+theorem tStats : (ss : List Stat) → (env : Env) → bStats true env ss = bStats false env ss
+  | [], env => by simp [bStats]
+  | s :: r, env => by
+    simp only [bStats, tStat s env]
+    rw [tStats r _]
 termination_by x => sizeOf x
-theorem tBlocks : (bs : List Block) → (env : Env) → okBlocks bs = true → bBlocks true env bs = bBlocks false env bs
-  | [], env, _ => by simp [bBlocks]
-  | b :: r, env, h => by
-    simp only [okBlocks, Bool.and_eq_true] at h; simp [bBlocks, tBlock b env h.1, tBlocks r env h.2]
+theorem tBlocks : (bs : List Block) → (env : Env) → bBlocks true env bs = bBlocks false env bs
+  | [], env => by simp [bBlocks]
+  | b :: r, env => by simp [bBlocks, tBlock b env, tBlocks r env]
 termination_by x => sizeOf x
-theorem tAll : (vs : List Exp) → (env : Env) → okExps vs = true → ∀ v ∈ vs, bExp true env v = bExp false env v
-  | [], env, _ => by intro v hv; cases hv
-  | e :: r, env, h => by
-    simp only [okExps, Bool.and_eq_true] at h
+theorem tAll : (vs : List Exp) → (env : Env) → ∀ v ∈ vs, bExp true env v = bExp false env v
+  | [], env => by intro v hv; cases hv
+  | e :: r, env => by
     intro v hv
     cases hv with
-    | head => exact tExp e env h.1
-    | tail _ hv' => exact tAll r env h.2 v hv'
+    | head => exact tExp e env
+    | tail _ hv' => exact tAll r env v hv'
 termination_by x => sizeOf x
-theorem tStat : (s : Stat) → (env : Env) → okStat s = true → bStat true env s = bStat false env s
-  | .brk, env, _ => by simp [bStat]
-  | .label _ _, env, _ => by simp [bStat]
-  | .goto_ _ _, env, _ => by simp [bStat]
-  | .do_ b _, env, h => by simp only [okStat] at h; simp [bStat, tBlock b env h]
-  | .while_ c b _, env, h => by
-    simp only [okStat, Bool.and_eq_true] at h; simp [bStat, tExp c env h.1, tBlock b env h.2]
-  | .repeat_ b c _, env, h => by
-    simp only [okStat, Bool.and_eq_true] at h
-    simp only [bStat, tBlock b env h.1, tExp c _ h.2]
-  | .if_ cs bs _ _, env, h => by
-    simp only [okStat, Bool.and_eq_true] at h; simp [bStat, tExps cs env h.1, tBlocks bs env h.2]
-  | .fornum v vl i lim st b _, env, h => by
-    simp only [okStat, Bool.and_eq_true] at h
-    simp [bStat, tExp i env h.1.1.1, tExp lim env h.1.1.2, tExp st env h.1.2, tBlock b _ h.2]
-  | .forin ns es b _, env, h => by
-    simp only [okStat, Bool.and_eq_true] at h; simp [bStat, tExps es env h.1, tBlock b _ h.2]
-  | .assign vars exps _, env, h => by
-    simp only [okStat, Bool.and_eq_true] at h; simp [bStat, tExps exps env h.2, targets_congr env exps 0 vars (tAll vars env h.1)]
-  | .local_ names exps sl, env, h => by
-    simp only [okStat, Bool.and_eq_true, decide_eq_true_eq] at h
-    simp only [bStat, if_true, Bool.false_eq_true, if_false]
-    exact localTr_single sl env names exps h.1 (tExps exps env h.2)
-  | .localfn n nl f _, env, h => by simp only [okStat] at h; simp [bStat, tFunc f _ h]
-  | .callstat e, env, h => by simp only [okStat] at h; simp [bStat, tExp e env h]
+theorem tStat : (s : Stat) → (env : Env) → bStat true env s = bStat false env s
+  | .brk, env => by simp [bStat]
+  | .label _ _, env => by simp [bStat]
+  | .goto_ _ _, env => by simp [bStat]
+  | .do_ b _, env => by simp [bStat, tBlock b env]
+  | .while_ c b _, env => by simp [bStat, tExp c env, tBlock b env]
+  | .repeat_ b c _, env => by
+    simp only [bStat, tBlock b env, tExp c _]
+  | .if_ cs bs _ _, env => by simp [bStat, tExps cs env, tBlocks bs env]
+  | .fornum v vl i lim st b _, env => by
+    simp [bStat, tExp i env, tExp lim env, tExp st env, tBlock b _]
+  | .forin ns es b _, env => by simp [bStat, tExps es env, tBlock b _]
+  | .assign vars exps _, env => by
+    simp [bStat, tExps exps env, targets_congr env exps 0 vars (tAll vars env)]
+  | .local_ names exps sl, env => by
+    simp only [bStat, tExps exps env]
+  | .localfn n nl f _, env => by simp [bStat, tFunc f _]
+  | .callstat e, env => by simp [bStat, tExp e env]
 termination_by x => sizeOf x
 end
 
-#print axioms localTr_single
 #print axioms targets_congr
 #print axioms tExp
 #print axioms tExps
@@ -184,25 +106,24 @@ end
 #print axioms tAll
 #print axioms tStat
 
-/-- **The traversal binder is Lua's binder** on every chunk whose `local` statements have at most
-    one initialiser (any nesting, any shadowing). -/
-theorem traversal_eq_spec (b : Block) (h : okBlock b = true) : bindTraversal b = bindChunk b := by
+/-- **The traversal binder is Lua's binder** on every chunk (any nesting, any shadowing, any number of
+    initialisers). -/
+theorem traversal_eq_spec (b : Block) : bindTraversal b = bindChunk b := by
   unfold bindTraversal bindChunk
-  rw [tBlock b [] h]
+  rw [tBlock b []]
 #print axioms traversal_eq_spec
 
-/-- C06-K2 is real: `local a = 1; local a, b = 2, a` — S-bind binds the last `a` to the FIRST
-    declaration, the traversal to the second. -/
-theorem K2_witness :
+/-- what the repaired defect was (former finding C06-K2): `local a = 1; local a, b = 2, a` — Lua binds
+    the last `a` to the FIRST declaration; the interleaved traversal bound it to the second. -/
+theorem interleaved_local_differs :
     let l1 : Loc := ⟨1, 6, 1, 7⟩
     let l2 : Loc := ⟨2, 6, 2, 7⟩
-    let prog : Block := .mk [
-      .local_ [([97], l1, 0)] [.int 1 ⟨1, 10, 1, 11⟩] ⟨1, 0, 1, 11⟩,
-      .local_ [([97], l2, 0), ([98], ⟨2, 9, 2, 10⟩, 0)] [.int 2 ⟨2, 13, 2, 14⟩, .name [97] ⟨2, 16, 2, 17⟩] ⟨2, 0, 2, 17⟩]
-      none ⟨1, 0, 2, 17⟩
-    ((bindChunk prog).find? (fun o => o.loc == ⟨2, 16, 2, 17⟩)).map (·.decl) = some (some l1) ∧
-    ((bindTraversal prog).find? (fun o => o.loc == ⟨2, 16, 2, 17⟩)).map (·.decl) = some (some l2) := by
+    let names : List (Bytes × Loc × Nat) := [([97], l2, 0), ([98], ⟨2, 9, 2, 10⟩, 0)]
+    let exps : List Exp := [.int 2 ⟨2, 13, 2, 14⟩, .name [97] ⟨2, 16, 2, 17⟩]
+    let env : Env := [([97], l1)]
+    (((bStat false env (.local_ names exps ⟨2, 0, 2, 17⟩)).1.find? (fun o => o.loc == ⟨2, 16, 2, 17⟩)).map (·.decl) = some (some l1)) ∧
+    (((bLocalInterleaved ⟨2, 0, 2, 17⟩ env names exps).1.find? (fun o => o.loc == ⟨2, 16, 2, 17⟩)).map (·.decl) = some (some l2)) := by
   decide
-#print axioms K2_witness
+#print axioms interleaved_local_differs
 
 end LuaHelper.C06
